@@ -17,6 +17,9 @@ var verifEncoded []datamodel.Node
 
 func verifDagcborEncode(n datamodel.Node, w io.Writer) error {
 	verifEncoded = append(verifEncoded, n)
+	if verifTapeOn {
+		verifTapeNode(n)
+	}
 	return nil
 }
 
